@@ -7,7 +7,7 @@ from ..engine import Finding
 ID = 'C18'
 TITLE = 'decorators are transparent: same results, same signature, no double wrapping'
 LEAN_FILES = ['Basic', 'Bind', 'Cache', 'Wrap', 'WrapHist', 'Try', 'BindDriver', 'Cmp', 'BindLemmas', 'CacheLemmas', 'CacheKeyLemmas', 'WrapLemmas', 'WrapHistLemmas', 'WrapHistSharp', 'ResDec', 'C18']
-RULE = ('distinct protocol lines on which the implementation returned a value: a (signature, call) pair bound / called / '
+RULE = ('distinct protocol lines (inside the domain of the model) on which the implementation returned a value: a (signature, call) pair bound / called / '
         'round-tripped, a (signature, decorator stack, call) triple, a construction sequence of wrappers, or a cache history '
         '(on a cached function or through a decorator stack) with at least two calls; calls without any argument on a parameterless function are not counted')
 TRUSTED = ['correspondence harness (pv.engine, pv.proto) and generators of pv.props.c18',
@@ -17,7 +17,8 @@ ASSUMPTIONS = ['CPython call protocol = the reference binder bindRef of the mode
                'functions are built by exec from the signature; parameter names a,b,c,d, *args, **kw',
                'wrapper equality is compared on class, parameters and wrapped function recursively, ignoring the memo field function_fullargspec',
                'cache keys: arguments are ints/floats/bools/strings/None, lists/tuples/dicts of them, sets of ints and int ndarrays (written as ~set:/~arr: strings on the wire); "the same combination" = python == of (args, kwargs) (1 == 1.0 == True, keyword order irrelevant, [1] != (1,), {"a":1} != (("a",1),)); NaN arguments are not generated (nan != nan: every call is a new combination)',
-               'object identity is not modelled: the constructor edits inner wrapper objects of its operand in place; only the returned object is compared']
+               'several objects alive at once (stackhist3): a constructor returns a NEW chain and leaves its operand as it is; the dict of a cache layer exists from the layer\'s first call on and is shared with every copy made afterwards (model of the repaired constructor, P7)',
+               'the stack model covers loops on arguments that are not a list / tuple / dict of one of ITS looped types (inDomain); lines outside are declined by the driver (bad-op) and only the verdict is compared']
 EXHAUSTIVE = {'quick': False, 'thorough': False}
 EXTRA = {}
 
@@ -433,6 +434,55 @@ def gen_steps(rng):
     return dict(tag='stack history with constructor applications between the calls', lines=[line])
 
 
+def gen_multi(rng, law=False):
+    """several decorated functions alive at once (`stackhist3`): every object ever built stays callable, constructors are applied
+    to ANY earlier object and OLDER objects are called again after later constructions - a constructor must not change what its
+    operand (or an object inside it) answers (P7: the pinned constructor cut same-class wrappers out of its operand's inner
+    objects in place).  Object 0 is the plain function.  Calls: valid scalars, == twins, raising calls.
+    `law=True`: the shape law 7 needs - build x, call it, build further objects on top (never called), call x again"""
+    sig = rng.choice([(['a'], [], None, None), (['a', 'b'], [DEFAULTS[0]], None, None), (['a', 'b'], [DEFAULTS[0]], 'args', 'kw')])
+    calls = [(a, k) for a, k in valid_calls(sig) if a and all(n in sig[0] for n in k)]
+    pool = []
+    for _ in range(rng.choice([1, 2, 3])):
+        a, k = rng.choice(calls)
+        pool.append(([rng.choice([0, 1, 2, 2.5, True, 'x', None]) for _ in a], {n: rng.choice([0, 1, 'x']) for n in k}))
+    a, k = rng.choice(pool)
+    pool.append((['!' + rng.choice('vkt')] + list(a[1:]), dict(k)))            # f raises on this one
+
+    def wrap(src):
+        c = rng.choice(CLASSES)
+        return ('wrap', c, deco_params(rng, c), src)
+    steps = []
+    nobj = 1
+    for _ in range(rng.choice([2, 3, 3])):          # the first object: two or three layers (the defect needs depth >= 2)
+        steps.append(wrap(nobj - 1))
+        nobj += 1
+    if law:
+        x = nobj - 1
+        probe = [rng.choice(pool[:-1]), pool[-1], rng.choice(pool[:-1])]
+        first = [('call', list(a), dict(k), x) for a, k in probe]
+        steps += first
+        for _ in range(rng.choice([1, 2, 3])):
+            steps.append(wrap(rng.randrange(x, nobj)))
+            nobj += 1
+        steps += first
+        return sig, steps, x
+    for _ in range(rng.choice([4, 7, 10])):
+        if rng.random() < 0.35:
+            steps.append(wrap(rng.choice([nobj - 1, nobj - 1, rng.randrange(nobj)])))
+            nobj += 1
+        else:
+            a, k = rng.choice(pool)
+            if rng.random() < 0.2:
+                a = [float(x) if isinstance(x, int) and not isinstance(x, bool) else x for x in a]
+            steps.append(('call', list(a), dict(k), rng.choice([nobj - 1, rng.randrange(1, nobj), rng.randrange(nobj)])))
+    return dict(tag='several decorated functions alive at once: older objects called again after later constructions', lines=[multi_line(sig, steps)])
+
+
+def multi_line(sig, steps):
+    return '(deco stackhist3 %s %s)' % (sig_enc(sig), '(L' + ''.join(' (T %s %s %s %s)' % tuple(enc(y) for y in x) for x in steps) + ')')
+
+
 def generate(rng, tier):
     q = tier == 'quick'
     sigs = list(all_sigs())
@@ -491,6 +541,26 @@ def generate(rng, tier):
         ds = [(c, deco_params(rng, c)) for c in [rng.choice(CLASSES) for _ in range(rng.choice([1, 2, 3]))]]
         yield dict(tag='stack len=%d valid (enumerated call)' % len(ds),
                    lines=['(deco stack %s %s %s %s)' % (sig_enc(sig), decos_enc(ds), enc(list(args)), enc(dict(kw)))])
+    # loops with a list / tuple / dict as the argument it dispatches on (review t5).  Of a type the wrapper does NOT loop over: a
+    # "non-container input" for this wrapper, the stack must be transparent (model == code).  Of a looped type: one call per element,
+    # C19's subject and outside this property's quantifier - the model driver declines (`bad-op`, `inDomain` in Wrap.lean) and
+    # `compare` checks that it declines on exactly these lines (`outside_loops_domain`, written independently)
+    conts = [[1, 2], (1, 2), {'p': 1}, [], (), [[1], [2]], ([1], 2), {'p': [1, 2], 'q': 3}]
+    withfirst = [(sg, a, k) for sg, a, k in allcalls if a or (sg[0] and sg[0][0] in k)]
+    for _ in range(200 if q else 3000):
+        sig, args, kw = rng.choice(withfirst)
+        args, kw = list(args), dict(kw)
+        v = rng.choice(conts)
+        if args:
+            args[0] = v
+        else:
+            kw[sig[0][0]] = v
+        cl = ['loops'] + rng.sample([c for c in CLASSES if c != 'loops'], rng.choice([0, 1, 2]))
+        rng.shuffle(cl)
+        ds = [(c, deco_params(rng, c)) for c in cl]
+        line = '(deco stack %s %s %s %s)' % (sig_enc(sig), decos_enc(ds), enc(args), enc(kw))
+        yield dict(tag='stack len=%d loops with a %s first argument of a %s type' % (len(ds), type(v).__name__, 'looped' if outside_loops_domain(line) else 'non-looped'),
+                   lines=[line])
     # construction: every sequence of <= 4 constructor applications (the same class may re-occur at any distance)
     seqs = list(itertools.product(CLASSES, repeat=4))
     for k in (1, 2, 3):
@@ -511,6 +581,8 @@ def generate(rng, tier):
         yield gen_stackhist(rng)
     for _ in range(300 if q else 6000):
         yield gen_steps(rng)
+    for _ in range(400 if q else 8000):
+        yield gen_multi(rng)
 
 
 # ---------------------------------------------------------------- implementation runner
@@ -598,6 +670,19 @@ def run_line(state, sx):
                 r = res_val(lambda: g(*args, **kw))
                 out.append((r, Counter.n))
         return 'ok ' + enc(out)
+    if op == 'stackhist3':
+        objs = [f]
+        Counter.n = 0
+        out = []
+        for step in a[1][1:]:
+            kind = proto.dec(step[1])
+            if kind == 'wrap':
+                objs.append(construct(proto.dec(step[2]), proto.dec(step[3]), objs[proto.dec(step[4])]))
+            else:
+                args, kw, g = proto.dec(step[2]), proto.dec(step[3]), objs[proto.dec(step[4])]
+                r = res_val(lambda: g(*args, **kw))
+                out.append((r, Counter.n))
+        return 'ok ' + enc(out)
     if op == 'stack':
         g = f
         for cls, params in decos_dec(a[1]):
@@ -629,7 +714,38 @@ def line_is_k1(line):
     return any(k not in params for k in proto.dec(sx[5]))
 
 
+def outside_loops_domain(line):
+    """a `stack` line whose loops wrapper (the constructor keeps ONE per stack, with the parameters of the outermost application)
+    dispatches on a list / tuple / dict of one of its `types`: the wrapper loops over it - outside "loops on non-container input".
+    No other layer changes the kind of the first argument (kwargs_support keeps declared keywords, pd2np rebuilds containers)"""
+    sx = proto.parse(line)
+    if sx[1] != 'stack':
+        return False
+    params = sig_dec(sx[2])[0]
+    types = None
+    for c, p in decos_dec(sx[3]):
+        if c == 'loops':
+            types = p['types']
+    if types is None:
+        return False
+    args, kw = proto.dec(sx[4]), proto.dec(sx[5])
+    if args:
+        v = args[0]
+    elif params and params[0] in kw:
+        v = kw[params[0]]
+    else:
+        return False
+    return type(v).__name__ in types if isinstance(v, (list, tuple, dict)) else False
+
+
 def compare(case, i, line, ir, mr):
+    if line.startswith('(deco stack ') and (mr == 'bad-op' or outside_loops_domain(line)):
+        # the DOMAIN of the stack model ("loops on non-container input"): the driver must decline exactly the lines on which a loops
+        # wrapper receives a container of a looped type; what the code does there is property C19
+        if (mr == 'bad-op') == outside_loops_domain(line):
+            return None
+        return 'domain of the model: the driver %s a line on which loops %s a container of a looped type' % (
+            'declines' if mr == 'bad-op' else 'answers', 'receives' if outside_loops_domain(line) else 'does not receive')
     if proto.same_reply(ir, mr, numeric=False):
         return None
     tag = case.get('tag', '')
@@ -663,13 +779,15 @@ def nontrivial(line, reply):
     if not reply.startswith('ok'):
         return False
     sx = proto.parse(line)
+    if outside_loops_domain(line):
+        return False
     if sx[1] == 'mk':
         return len(sx[2]) > 2
     if sx[1] == 'cache':
         return len(sx[3]) > 2
     if sx[1] == 'stackhist':
         return len(sx[4]) > 2
-    if sx[1] == 'stackhist2':
+    if sx[1] in ('stackhist2', 'stackhist3'):
         return len(sx[3]) > 2
     return len(sx[-2]) > 1 or len(sx[-1]) > 1
 
@@ -748,6 +866,17 @@ def ref_stack(ds, f, sig, args, kw):
     return ev(layers, list(args), dict(kw)), used
 
 
+def _rebuild(sig, steps, x):
+    """object number x of a `stackhist3` step list, built afresh (nothing else is built: its chain as the constructor made it)"""
+    objs = [make_fn(sig)]
+    for st in steps:
+        if st[0] == 'wrap':
+            objs.append(construct(st[1], st[2], objs[st[3]]))
+            if len(objs) == x + 1:
+                break
+    return objs[x]
+
+
 def laws(rng, tier, ctx):
     import pyg_base
     from pyg_base import getcallargs, call_with_callargs, getargspec
@@ -818,7 +947,7 @@ def laws(rng, tier, ctx):
         return repr(v)
 
     def i2f(v):
-        if isinstance(v, np.ndarray) and v.dtype.kind == 'i':
+        if isinstance(v, np.ndarray) and v.dtype in (np.dtype(np.int16), np.dtype(np.int32), np.dtype(np.int64)):       # what the docstring of K6 covers: int8 / uint arrays stay as they are
             return v.astype(float)
         if isinstance(v, dict):
             return {k: i2f(x) for k, x in v.items()}
@@ -826,7 +955,8 @@ def laws(rng, tier, ctx):
             return type(v)(*[i2f(x) for x in v]) if hasattr(v, '_fields') else type(v)([i2f(x) for x in v])
         return v
     specials = [lambda: np.array([1, 2]), lambda: np.array([1.5, 2.5]), lambda: [np.array([1, 2]), 3], lambda: P2(1, 2), lambda: P2(np.array([3]), 'x'),
-                lambda: {'k': np.array([1, 2])}, lambda: [1, [2, 3]], lambda: {'p': 1}]
+                lambda: {'k': np.array([1, 2])}, lambda: [1, [2, 3]], lambda: {'p': 1}, lambda: np.array([1, 2], dtype=np.int8), lambda: np.array([1, 2], dtype=np.uint16),
+                lambda: np.array([1, 2], dtype=np.int32)]
     for sig, args, kw in rng.sample(allcalls, 150 if tier == 'quick' else len(allcalls)):
         if not args and not kw:
             continue
@@ -856,7 +986,10 @@ def laws(rng, tier, ctx):
             got = show(res_val(lambda: g(*a, **k)))
             if got != direct:
                 a, k = build()
-                conv = show(res_val(lambda: f(*i2f(a), **i2f(k))))
+                # K6 exactly: the int arrays among the positional arguments and among the keywords NOT named in `exc` of the stack's
+                # pd2np (the constructor keeps one, with the parameters of the outermost application) are converted, nothing else
+                exc = ([p.get('exc') for c, p in ds if c == 'pd2np'] or [[]])[-1]
+                conv = show(res_val(lambda: f(*i2f(a), **{n: (x if n in exc else i2f(x)) for n, x in k.items()})))
                 k6 = any(c == 'pd2np' for c, _ in ds) and got == conv
                 yield Finding('violation', dict(tag='law-pd2np-int-array' if k6 else 'law-transparent-containers', lines=[],
                                                 values=[sig_enc(sig), decos_enc(ds), show(a), show(k)]),
@@ -1015,6 +1148,27 @@ def laws(rng, tier, ctx):
             k5 = k5_only
             yield Finding('violation', dict(case, tag='law-cache-ndarray' if k5 else 'law-cache'),
                           'cached function does not evaluate once per distinct combination / return the first result: %s' % enc(list(failing[0])))
+    # (7) a constructor does not change what an EXISTING decorated function answers: x is built and called (a valid call, a
+    # raising call, the valid call again), further objects are built on top of x (or of each other) and never called, then x
+    # gets the same three calls again: the same replies, and a non-raising call executes f once - or not at all when x holds a
+    # cache layer (it was evaluated in the first round)
+    for _ in range(300 if tier == 'quick' else 5000):
+        sig, steps, x = gen_multi(rng, law=True)
+        line = multi_line(sig, steps)
+        count += 1
+        reply = run_line(None, proto.parse(line))
+        out = proto.dec(proto.parse(reply[3:]))
+        classes = [c for c, _ in dump(_rebuild(sig, steps, x))[0]]
+        (r1, n1), (r2, n2), (r3, n3), (s1, m1), (s2, m2), (s3, m3) = out
+        cached = 'cache_func' in classes
+        bad = None
+        if enc([r1, r2, r3]) != enc([s1, s2, s3]):
+            bad = 'replies before the later constructions %r, after %r' % ([r1, r2, r3], [s1, s2, s3])
+        elif not (isinstance(s1, tuple) and s1[:1] == ('!raised',)) and (m1 - n3, m3 - m2) != ((0, 0) if cached else (1, 1)):
+            bad = 'executions of f on the two non-raising calls after the later constructions: %r (x %s a cache layer)' % ((m1 - n3, m3 - m2), 'has' if cached else 'has not')
+        if bad:
+            yield Finding('violation', dict(tag='law-operand-kept', lines=[line]),
+                          'object %d (%s) answers differently after objects were built on top of it: %s' % (x, '('.join(classes), bad))
     yield count
 
 
